@@ -204,6 +204,87 @@ def set_alias(where: int, vk: int, via: int) -> bool:
     return _reload_same(doc)
 
 
+MK_TEXT = """---
+defaults: &defaults
+  adapter: 'postgres'
+  host: &h localhost
+  port: 5432
+  name: plain
+development:
+  <<: *defaults
+  database: dev
+test:
+  <<: *defaults
+  host: other
+  peer: *h
+"""
+MK_SETS = [("defaults", "adapter"), ("defaults", "host"), ("defaults", "port"), ("defaults", "name"),
+           ("development", "database"), ("test", "host")]
+MK_VALUES = ["mysql", 7, "two words", True]
+
+
+def _mk_view(doc):
+    """(own keys per mapping, merged view per mapping) of the merge-key document as plain data."""
+    own, view = {}, {}
+    for name in ("defaults", "development", "test"):
+        m = doc[name]
+        own[name] = [(str(k), _plain(v)) for k, v in m.non_merged_items()] if hasattr(m, "non_merged_items") \
+            else [(str(k), _plain(v)) for k, v in m.items()]
+        view[name] = dict((str(k), _plain(v)) for k, v in m.items())
+    return own, view
+
+
+def set_mergekey(k: int) -> bool:
+    """A document using YAML merge keys (<<: *anchor): a 2-step history of sets (with a dump -> strict reload between
+    the steps) changes exactly the addressed own key; mappings that merge the changed mapping see the new value through
+    the merge and gain no key of their own; aliases of a changed anchored scalar follow."""
+    import io
+    from yamlpath.common import Parsers
+    k = realize(k)
+    s1, k = k % len(MK_SETS), k // len(MK_SETS)
+    s2, k = k % len(MK_SETS), k // len(MK_SETS)
+    v1, k = k % len(MK_VALUES), k // len(MK_VALUES)
+    slash = bool(k % 2)
+    with NoTracing():
+        (doc, ok) = Parsers.get_yaml_data(Parsers.get_yaml_editor(), LOG, MK_TEXT, literal=True)
+    m_own = {"defaults": {"adapter": "postgres", "host": "localhost", "port": 5432, "name": "plain"},
+             "development": {"database": "dev"}, "test": {"host": "other", "peer": "localhost"}}
+    steps = [(MK_SETS[s1], MK_VALUES[v1]), (MK_SETS[s2], MK_VALUES[(v1 + 1) % len(MK_VALUES)])]
+    for step, ((mp, key), val) in enumerate(steps):
+        path = ("/%s/%s" if slash else "%s.%s") % (mp, key)
+        note(**{"step%d" % step: "set %s = %r" % (path, val)})
+        Processor(LOG, doc).set_value(path, val, mustexist=True)
+        m_own[mp][key] = val
+        if (mp, key) == ("defaults", "host"):
+            m_own["test"]["peer"] = val          # *h is an alias of the anchored scalar
+        for rnd in range(2):
+            own, view = _mk_view(doc)
+            for name in m_own:
+                want_own = dict(m_own[name])
+                got_own = dict(own[name])
+                want_view = dict(m_own["defaults"]) if name != "defaults" else {}
+                want_view.update(m_own[name])
+                if got_own != want_own or [kk for kk, _ in own[name]] != list(m_own[name]):
+                    note(problem="own keys of %s after step %d%s" % (name, step, " (reloaded)" if rnd else ""), got=own[name],
+                         expected=sorted(want_own.items(), key=str))
+                    return False
+                # ruamel copies merged-in entries into the merging mapping at load time; that copy is only refreshed by
+                # a reload, so the merged view is asserted on the reloaded document (the serialised form) only
+                if rnd == 1 and view[name] != want_view:
+                    note(problem="merged view of %s after step %d%s" % (name, step, " (reloaded)" if rnd else ""),
+                         got=view[name], expected=want_view)
+                    return False
+            if rnd == 0:
+                with NoTracing():
+                    buf = io.StringIO()
+                    Parsers.get_yaml_editor().dump(doc, buf)
+                    (doc, ok) = Parsers.get_yaml_data(Parsers.get_yaml_editor(), LOG, buf.getvalue(), literal=True)
+                if not ok:
+                    note(problem="dump does not reload after step %d" % step)
+                    return False
+    return True
+
+
 def _seq(x):
     return list(x) if isinstance(x, list) else x
 
@@ -324,6 +405,12 @@ def shards(tier, seed):
     out.append(shard(PID, "alias", "harness.c03", "set_alias(where, vk, via)",
                      [("where", "int"), ("vk", "int"), ("via", "int")], ["0 <= where <= 1", "0 <= vk <= 2", "0 <= via <= 2"],
                      family="alias", budget=600, kind="S", desc="anchored scalar with aliases under keys / inside a list"))
+    nmk = len(MK_SETS) * len(MK_SETS) * len(MK_VALUES) * 2
+    for lo in range(0, nmk, 72):
+        out.append(shard(PID, "mergekey/k%03d" % lo, "harness.c03", "set_mergekey(k)", [("k", "int")],
+                         ["%d <= k < %d" % (lo, min(nmk, lo + 72))], family="mergekey", budget=1200, kind="S",
+                         desc="document with YAML merge keys and an aliased anchored scalar: 2 sets with dump -> strict "
+                              "reload after each (combined selector slice)"))
     ops = [(o1, o2) for o1 in range(3) for o2 in range(3)]
     if tier == "quick":
         ops = [(0, 2), (2, 0), (1, 0), (2, 2)]
